@@ -215,3 +215,129 @@ def loop_components(loop: ast.For):
     if isinstance(t, ast.Name):
         return f"{t.id}[0]", f"{t.id}[1]"
     return None
+
+
+def value_at(block: Sequence[ast.stmt], use_stmt: ast.stmt, expr, seeds=()) -> Optional[ast.expr]:
+    """The expression `expr` denotes at `use_stmt`, with every local that is (re-)assigned by a top-level statement
+    of `block` before `use_stmt` replaced by its defining expression (sequentially, so `e = f(e)` composes).
+    Statements nested in the block that contain use_stmt are looked through along the path to it.  Returns None
+    when a name involved is assigned under a condition or in a loop on the way (no single reaching definition)."""
+    import copy as _copy
+
+    env = {}
+
+    class Sub(ast.NodeTransformer):
+        def visit_Name(self, n):
+            if isinstance(n.ctx, ast.Load) and n.id in env:
+                return _copy.deepcopy(env[n.id])
+            return n
+
+    def assigned_names(s_) -> set:
+        return {x.id for x in ast.walk(s_) if isinstance(x, ast.Name) and isinstance(x.ctx, ast.Store)}
+
+    def walk_block(stmts) -> Optional[bool]:
+        for s_ in stmts:
+            if s_ is use_stmt or contains(s_, use_stmt):
+                if s_ is use_stmt:
+                    return True
+                # descend along the path
+                for fld in ("body", "orelse", "finalbody"):
+                    sub = getattr(s_, fld, None)
+                    if isinstance(sub, list) and any(x is use_stmt or contains(x, use_stmt) for x in sub):
+                        return walk_block(sub)
+                return True
+            if isinstance(s_, ast.Assign) and len(s_.targets) == 1 and isinstance(s_.targets[0], ast.Name):
+                env[s_.targets[0].id] = Sub().visit(_copy.deepcopy(s_.value))
+            else:
+                # anything else that assigns a name makes that name unknown
+                for nm in assigned_names(s_):
+                    env[nm] = ast.Name(id=f"?{nm}", ctx=ast.Load())
+        return False
+
+    found = walk_block(list(block))
+    if not found:
+        return None
+    out = Sub().visit(_copy.deepcopy(expr))
+    if any(isinstance(n, ast.Name) and n.id.startswith("?") for n in ast.walk(out)):
+        return None
+    return out
+
+
+def enclosing_stmt(fi: FuncInfo, node) -> Optional[ast.stmt]:
+    cur = node
+    while cur is not None and not isinstance(cur, ast.stmt):
+        cur = fi.pm.get(cur)
+    return cur
+
+
+def is_mapped_over(src, fname: str, iterable: str) -> bool:
+    """src is f applied to every element of `iterable`, in order: [f(a) for a in it] / (f(a) for a in it) /
+    map(f, it) / list(map(f, it)) / map(lambda a: f(a), it)"""
+    src = strip_wrappers(src)
+    if isinstance(src, (ast.ListComp, ast.GeneratorExp)):
+        g = src.generators
+        return (
+            len(g) == 1
+            and not g[0].ifs
+            and norm(g[0].iter) == iterable
+            and isinstance(src.elt, ast.Call)
+            and (dotted(src.elt.func) or "").split(".")[-1] == fname.split(".")[-1]
+            and len(src.elt.args) == 1
+            and not src.elt.keywords
+            and norm(src.elt.args[0]) == norm(g[0].target)
+        )
+    if isinstance(src, ast.Call) and isinstance(src.func, ast.Name) and src.func.id == "map" and len(src.args) == 2 and norm(src.args[1]) == iterable:
+        f = src.args[0]
+        if (dotted(f) or "").split(".")[-1] == fname.split(".")[-1]:
+            return True
+        if isinstance(f, ast.Lambda) and len(f.args.args) == 1 and isinstance(f.body, ast.Call) and (dotted(f.body.func) or "").split(".")[-1] == fname.split(".")[-1] and len(f.body.args) == 1 and norm(f.body.args[0]) == f.args.args[0].arg:
+            return True
+    return False
+
+
+def value_alternatives(fi: FuncInfo, root, name: str):
+    """[(value expr, [(cond expr, polarity)], assign node)] for every binding `name = v` under root; a conditional
+    expression on the right-hand side is split into its two alternatives (conditions local to the statement are
+    appended to the guard facts of the statement)"""
+    from .core import guard_facts as _gf
+
+    out = []
+    for n in ast.walk(root):
+        if isinstance(n, ast.Assign) and len(n.targets) == 1 and isinstance(n.targets[0], ast.Name) and n.targets[0].id == name:
+            base = list(_gf(fi, n))
+
+            def split(v, conds):
+                if isinstance(v, ast.IfExp):
+                    t, pol = v.test, True
+                    while isinstance(t, ast.UnaryOp) and isinstance(t.op, ast.Not):
+                        t, pol = t.operand, not pol
+                    split(v.body, conds + [(t, pol)])
+                    split(v.orelse, conds + [(t, not pol)])
+                else:
+                    out.append((v, conds, n))
+
+            split(n.value, base)
+    return out
+
+
+def pairwise_visit(elt_src, visitor: str) -> Optional[bool]:
+    """src maps every (sym, e) pair to (sym, <visitor>.visit(e)): comprehension with tuple or single target, map with
+    lambda.  True / False when the shape is a pairwise map and is / is not that one; None when it is not a pairwise
+    map at all"""
+    src = strip_wrappers(elt_src)
+    if isinstance(src, (ast.ListComp, ast.GeneratorExp)) and len(src.generators) == 1 and not src.generators[0].ifs:
+        tg, b = src.generators[0].target, src.elt
+        if isinstance(tg, ast.Tuple) and len(tg.elts) == 2:
+            s_, e_ = norm(tg.elts[0]), norm(tg.elts[1])
+        elif isinstance(tg, ast.Name):
+            s_, e_ = f"{tg.id}[0]", f"{tg.id}[1]"
+        else:
+            return None
+    elif isinstance(src, ast.Call) and isinstance(src.func, ast.Name) and src.func.id == "map" and len(src.args) == 2 and isinstance(src.args[0], ast.Lambda) and len(src.args[0].args.args) == 1:
+        a = src.args[0].args.args[0].arg
+        s_, e_, b = f"{a}[0]", f"{a}[1]", src.args[0].body
+    else:
+        return None
+    if not (isinstance(b, ast.Tuple) and len(b.elts) == 2):
+        return None
+    return norm(b.elts[0]) == s_ and norm(b.elts[1]) == f"{visitor}.visit({e_})"
